@@ -180,6 +180,81 @@ func runC10(c *Collector, r *Rng, thorough bool) {
 			}
 		}
 	}
+	// parents whose payload is present and empty (h''): countersigned like any other parent, constructed and decoded,
+	// by pointer and by value, full and abbreviated
+	{
+		s1 := &cose.Sign1Message{Headers: cose.Headers{Protected: cose.ProtectedHeader{cose.HeaderLabelAlgorithm: cose.AlgorithmES256}}, Payload: []byte{}, Signature: []byte{1, 1}}
+		sm := &cose.SignMessage{Headers: cose.Headers{Protected: cose.ProtectedHeader{}}, Payload: []byte{}, Signatures: []*cose.Signature{{Headers: cose.Headers{Protected: cose.ProtectedHeader{cose.HeaderLabelAlgorithm: cose.AlgorithmES256}}, Signature: []byte{2, 2}}}}
+		var parents []any
+		parents = append(parents, s1, sm)
+		if b, err := s1.MarshalCBOR(); err == nil {
+			var d1 cose.Sign1Message
+			if d1.UnmarshalCBOR(b) == nil {
+				parents = append(parents, &d1)
+			}
+		}
+		if b, err := sm.MarshalCBOR(); err == nil {
+			var dm cose.SignMessage
+			if dm.UnmarshalCBOR(b) == nil {
+				parents = append(parents, &dm)
+			}
+		}
+		for _, pv := range parents {
+			for _, ptr := range []bool{true, false} {
+				for _, ext := range [][]byte{nil, []byte("x")} {
+					par := parentOf(pv, ptr)
+					cs := &cose.Countersignature{Headers: cose.Headers{Protected: cose.ProtectedHeader{cose.HeaderLabelAlgorithm: cose.AlgorithmES256}}}
+					sg := &spySigner{alg: -7, kind: SOk, sig: []byte{7, 7}}
+					op, obs, err, p := execCsign(cs, sg, par, ext)
+					if p {
+						c.Fail("C10/panic", "Countersignature.Sign panicked", map[string]any{"op": trunc(op, 500)})
+						continue
+					}
+					addCase(c, fmt.Sprintf("csign/empty-payload/%T", par.val), op, obs, len(sg.calls) > 0)
+					sp, _ := refProtectedBstr(&cs.Headers)
+					want, rerr := refCountersign(false, par.val, sp, ext)
+					if err != nil || rerr != nil || len(sg.calls) != 1 || !bytes.Equal(want, sg.calls[0]) {
+						c.Fail("C10/structure", fmt.Sprintf("a parent with a present, zero-length payload: Sign returned %v, the countersigner was handed %x, the RFC 9338 structure is %x", err, sg.calls, want), map[string]any{"op": trunc(op, 600)})
+						continue
+					}
+					vf := &spyVerifier{alg: -7}
+					if verr := cs.Verify(vf, par.val, ext); verr != nil || len(vf.calls) != 1 || !bytes.Equal(vf.calls[0].content, want) {
+						c.Fail("C10/sign-verify-differ", fmt.Sprintf("a parent with a present, zero-length payload: Verify returned %v", verr), map[string]any{"op": trunc(op, 600)})
+					}
+					sg0 := &spySigner{alg: -7, kind: SOk, sig: []byte{8}}
+					op0, obs0, _, err0, _ := execCsign0(sg0, par, ext)
+					addCase(c, fmt.Sprintf("csign0/empty-payload/%T", par.val), op0, obs0, len(sg0.calls) > 0)
+					want0, _ := refCountersign(true, par.val, []byte{0x40}, ext)
+					if err0 != nil || len(sg0.calls) != 1 || !bytes.Equal(want0, sg0.calls[0]) {
+						c.Fail("C10/structure0", fmt.Sprintf("a parent with a present, zero-length payload: Countersign0 returned %v", err0), map[string]any{"op": trunc(op0, 600)})
+					}
+				}
+			}
+		}
+	}
+	// whatever error the verifier reports - its own, ErrVerification, an unavailable hash - the countersignature does not
+	// verify, for the full and the abbreviated form and every kind of parent
+	for _, pv := range genParents(r, true) {
+		for _, verr := range []error{cose.ErrVerification, errScripted, cose.ErrUnavailableHashFunc, fmt.Errorf("hsm: %w", errScripted), errors.New("verification error")} {
+			par := parentOf(pv, r.Bool())
+			cs := &cose.Countersignature{Headers: cose.Headers{Protected: cose.ProtectedHeader{cose.HeaderLabelAlgorithm: cose.AlgorithmES256}}, Signature: []byte{1, 2, 3}}
+			vf := &spyVerifier{alg: -7, err: verr}
+			var e1, e0 error
+			p1, _ := protect(func() { e1 = cs.Verify(vf, par.val, nil) })
+			vf0 := &spyVerifier{alg: -7, err: verr}
+			p0, _ := protect(func() { e0 = cose.VerifyCountersign0(vf0, par.val, nil, []byte{1, 2, 3}) })
+			c.Eval(fmt.Sprintf("cverify/refusing-verifier/%T", par.val), fmt.Sprint(verr), true)
+			if p1 || p0 {
+				continue
+			}
+			if len(vf.calls) == 1 && e1 == nil {
+				c.Fail("C10/verifier-error-not-propagated", fmt.Sprintf("Countersignature.Verify over a %T returned nil although the verifier returned %q", par.val, verr), map[string]any{"verifier_error": fmt.Sprint(verr)})
+			}
+			if len(vf0.calls) == 1 && e0 == nil {
+				c.Fail("C10/verifier-error-not-propagated", fmt.Sprintf("VerifyCountersign0 over a %T returned nil although the verifier returned %q", par.val, verr), map[string]any{"verifier_error": fmt.Sprint(verr)})
+			}
+		}
+	}
 	// a parent decoded with a list of three different countersignatures: each entry, used on its own, hands the verifier
 	// the structure over its own protected bytes and its own signature
 	for _, label := range []int64{7, 11} {
@@ -1047,6 +1122,7 @@ func runC11(c *Collector, r *Rng, thorough bool) {
 	c11MalformedVerifierKey(c, r)
 	c11Positional(c, r)
 	c11OneSignerManySlots(c, r)
+	c11SharedVerifiers(c, r)
 }
 
 // c11MalformedVerifierKey: a verifier built from a malformed EdDSA public key (wrong length: NewVerifier looks at
@@ -1339,6 +1415,29 @@ func runC20(c *Collector, r *Rng, thorough bool) {
 		addCase(c, "verifymsg/propagation", op, obs, true)
 		if (err == nil) != (verr == nil) {
 			c.Fail("C20/verifier-error-not-propagated", "SignMessage.Verify lost the verifier error", map[string]any{"op": op})
+		}
+	}
+	// ---- countersignatures, full and abbreviated, over every kind of parent given by pointer and by value: the
+	// verifier's error - whatever it is - comes back (errors.Is), never nil ----
+	for _, pv := range genParents(r, true) {
+		for _, ptr := range []bool{true, false} {
+			for _, verr := range []error{cose.ErrVerification, errScripted, cose.ErrUnavailableHashFunc, fmt.Errorf("kms: %w", errScripted)} {
+				par := parentOf(pv, ptr)
+				cs := &cose.Countersignature{Headers: hdr(cose.AlgorithmES256), Signature: []byte{1, 2, 3}}
+				vf := &spyVerifier{alg: -7, err: verr}
+				var e1, e0 error
+				p1, _ := protect(func() { e1 = cs.Verify(vf, par.val, nil) })
+				vf0 := &spyVerifier{alg: -7, err: verr}
+				p0, _ := protect(func() { e0 = cose.VerifyCountersign0(vf0, par.val, nil, []byte{1, 2, 3}) })
+				c.Eval(fmt.Sprintf("countersignature-verifier-error/%T", par.val), fmt.Sprint(verr), true)
+				rep := map[string]any{"parent": fmt.Sprintf("%T", par.val), "verifier_error": fmt.Sprint(verr)}
+				if !p1 && len(vf.calls) == 1 && !errors.Is(e1, verr) {
+					c.Fail("C20/verifier-error-not-propagated", fmt.Sprintf("Countersignature.Verify over a %T returned %v although the verifier returned %q", par.val, e1, verr), rep)
+				}
+				if !p0 && len(vf0.calls) == 1 && !errors.Is(e0, verr) {
+					c.Fail("C20/verifier-error-not-propagated", fmt.Sprintf("VerifyCountersign0 over a %T returned %v although the verifier returned %q", par.val, e0, verr), rep)
+				}
+			}
 		}
 	}
 	// ---- COSE_Sign: every assignment of {succeeds, ErrVerification, other error} to the verifiers of n <= 4 signers:
@@ -2243,4 +2342,62 @@ func (f *entropyReadingSigner) Sign(rnd io.Reader, digest []byte, opts crypto.Si
 		return nil, err
 	}
 	return f.real.Sign(rnd, digest, opts)
+}
+
+// c11SharedVerifiers: the verifiers of a COSE_Sign shared by 12 goroutines that verify valid messages with large
+// payloads at the same time (a gateway does this with its trust anchors): every verification of a valid message
+// returns nil, every verification of a message with one signature edited does not.
+func c11SharedVerifiers(c *Collector, r *Rng) {
+	for _, k := range realKeySet(r) {
+		signer := k.signer()
+		vfs := []cose.Verifier{k.verifier(), k.verifier()}
+		var msgs []*cose.SignMessage
+		for i := 0; i < 4; i++ {
+			m := &cose.SignMessage{Headers: cose.Headers{Protected: cose.ProtectedHeader{}}, Payload: r.Bytes(192*1024 + i)}
+			for j := 0; j < 2; j++ {
+				m.Signatures = append(m.Signatures, &cose.Signature{Headers: cose.Headers{Protected: cose.ProtectedHeader{cose.HeaderLabelAlgorithm: k.alg, int64(4): []byte{byte(j)}}}})
+			}
+			if err := m.Sign(r, nil, signer, signer); err != nil {
+				break
+			}
+			msgs = append(msgs, m)
+		}
+		if len(msgs) == 0 {
+			continue
+		}
+		bad := &cose.SignMessage{Headers: msgs[0].Headers, Payload: msgs[0].Payload, Signatures: []*cose.Signature{msgs[0].Signatures[0], {Headers: msgs[0].Signatures[1].Headers, Signature: append([]byte{}, msgs[0].Signatures[1].Signature...)}}}
+		bad.Signatures[1].Signature[3] ^= 0x20
+		var wg sync.WaitGroup
+		var mu sync.Mutex
+		refused, accepted := 0, 0
+		rounds := 6
+		if _, isRSA := k.priv.(*rsa.PrivateKey); isRSA {
+			rounds = 3
+		}
+		for g := 0; g < 12; g++ {
+			wg.Add(1)
+			go func(g int) {
+				defer wg.Done()
+				for rd := 0; rd < rounds; rd++ {
+					m := msgs[(g+rd)%len(msgs)]
+					var err error
+					if p, _ := protect(func() { err = m.Verify(nil, vfs...) }); p || err != nil {
+						mu.Lock()
+						refused++
+						mu.Unlock()
+					}
+					if p, _ := protect(func() { err = bad.Verify(nil, vfs...) }); !p && err == nil {
+						mu.Lock()
+						accepted++
+						mu.Unlock()
+					}
+				}
+			}(g)
+		}
+		wg.Wait()
+		c.Eval("shared-verifiers/"+k.name+"/"+k.alg.String(), fmt.Sprint(rounds), true)
+		if refused > 0 || accepted > 0 {
+			c.Fail("C11/verdict-depends-on-concurrent-use", fmt.Sprintf("the verifiers of a COSE_Sign shared by 12 goroutines (192 KiB payloads, %v): %d verifications of valid messages refused or panicked, %d of a message with an edited signature accepted", k.alg, refused, accepted), map[string]any{"key": k.name, "alg": k.alg.String()})
+		}
+	}
 }
